@@ -38,6 +38,9 @@ pub struct AmountCase {
     /// status informations of the reservation (Sim::status_script)
     #[serde(default)]
     pub status_script: Option<String>,
+    /// amounts the reservation's status informations report (empty: they echo the requested amount)
+    #[serde(default)]
+    pub status_amounts: Vec<u64>,
     #[serde(default)]
     pub prior_card: Option<PriorCard>,
     #[serde(default)]
@@ -98,6 +101,7 @@ pub fn check_amounts(c: &AmountCase) -> CheckResult {
     }
     sc.sim.intermediates = c.intermediates;
     sc.sim.status_script = c.status_script.clone();
+    sc.sim.status_amounts = c.status_amounts.clone();
     sc.sim.reversal_status = c
         .status
         .iter()
@@ -226,9 +230,10 @@ pub fn case_strategy() -> impl Strategy<Value = AmountCase> {
         0usize..3,
         prop::bool::weighted(0.1),
         (prop::bool::weighted(0.25), any::<u8>(), any::<u64>(), prop::bool::weighted(0.12), any::<bool>(), any::<bool>()),
-        prop_oneof![2 => Just(0usize), 3 => 1usize..crate::props::c07::STATUS_SCRIPTS.len()],
+        (prop_oneof![2 => Just(0usize), 3 => 1usize..crate::props::c07::STATUS_SCRIPTS.len()], proptest::option::weighted(0.3, proptest::collection::vec((0u8..8, any::<u64>()), 1..=3))),
     )
-        .prop_map(|(pre_auth, (sel, rnd), currency, password, token, receipt, status, cancel, intermediates, retried_reservation, (card, lsel, lrnd, txn, payment, extra), script)| {
+        .prop_map(|(pre_auth, (sel, rnd), currency, password, token, receipt, status, cancel, intermediates, retried_reservation, (card, lsel, lrnd, txn, payment, extra), (script, amounts))| {
+            let status_amounts: Vec<u64> = amounts.unwrap_or_default().iter().map(|(k, r)| match k { 0 => 0, 1 => 1, 2 => pre_auth / 2, 3 => pre_auth.saturating_sub(1), 4 => pre_auth, 5 => (pre_auth + 1).min(999_999_999_999), 6 => r % (pre_auth + 1), _ => r % 1_000_000_000_000 }).collect();
             let status_script = if script == 0 { None } else { Some(crate::props::c07::STATUS_SCRIPTS[script].to_string()) };
             let prior_card = card.then(|| PriorCard {
                 limit: match lsel % 8 {
@@ -263,7 +268,7 @@ pub fn case_strategy() -> impl Strategy<Value = AmountCase> {
                 10 => pre_auth.saturating_add(rnd % 1000),
                 _ => rnd,
             };
-            AmountCase { pre_auth, final_amount, currency, password, token, receipt, status, cancel, intermediates, retried_reservation, status_script, prior_card, prior_txn }
+            AmountCase { pre_auth, final_amount, currency, password, token, receipt, status, cancel, intermediates, retried_reservation, status_script, status_amounts, prior_card, prior_txn }
         })
 }
 
@@ -293,6 +298,9 @@ pub fn run(tier: Tier) -> i32 {
             if c.prior_txn.is_some() {
                 st.class("earlier-complete-transaction");
             }
+            if c.status_amounts.iter().any(|a| *a < c.pre_auth) {
+                st.class("reservation-status-reports-less-than-requested");
+            }
             if let Some(s) = &c.status_script {
                 st.class(&format!("reservation-status-informations:{s}"));
             }
@@ -306,7 +314,7 @@ pub fn run(tier: Tier) -> i32 {
     stats.sample(|| json!({"note": "release = max(P - a, 0) computed in u128; Reservation = {amount P, currency, payment type 0x40, BMP60 (AC, token)} and nothing else"}));
     ctx.finish(
         stats,
-        "proptest: pre-authorisation amounts over 0..10^12-1 (0, 1, 10^k-1/10^k/10^k+1, u32 boundaries, maximum, uniform) x final amounts over u64 (0, P-1, P, P+1, u32::MAX +-1, u64::MAX, random) x currencies {978, 826, 752, 0, 9999} x passwords x CP437 tokens of 0..60 characters x receipts 1..9999 x 1..3 status-information packets with each of amount/trace/date/time/terminal-id present or absent over their full BCD width. The real client runs begin + commit (or cancel) against the simulated terminal, with the reservation answered by 1..3 status informations (receipt number in the first / middle / last one, a provisional number in front of the booked one), in a quarter of the cases after an earlier read_card on the same client (status information with the optional maximum-pre-authorisation field 1f0b absent / 0 / below / equal / above the configured amount, with or without a payment application) and in an eighth after an earlier complete begin + commit; requests are decoded by the reference codec and compared with exact expected values; the terminal's ledger and the returned summary are compared with min(a,P) resp. the last status information. non-trivial = a real partial release or a > P (final amount not in {0, P}); distinct by (P, a, currency, token, op)",
+        "proptest: pre-authorisation amounts over 0..10^12-1 (0, 1, 10^k-1/10^k/10^k+1, u32 boundaries, maximum, uniform) x final amounts over u64 (0, P-1, P, P+1, u32::MAX +-1, u64::MAX, random) x currencies {978, 826, 752, 0, 9999} x passwords x CP437 tokens of 0..60 characters x receipts 1..9999 x 1..3 status-information packets with each of amount/trace/date/time/terminal-id present or absent over their full BCD width. The real client runs begin + commit (or cancel) against the simulated terminal, with the reservation answered by 1..3 status informations (receipt number in the first / middle / last one, a provisional number in front of the booked one) that echo the requested amount or report another one (0, 1, half, +-1, random), in a quarter of the cases after an earlier read_card on the same client (status information with the optional maximum-pre-authorisation field 1f0b absent / 0 / below / equal / above the configured amount, with or without a payment application) and in an eighth after an earlier complete begin + commit; requests are decoded by the reference codec and compared with exact expected values; the terminal's ledger and the returned summary are compared with min(a,P) resp. the last status information. non-trivial = a real partial release or a > P (final amount not in {0, P}); distinct by (P, a, currency, token, op)",
         &["P >= 10^12 does not fit the 12-digit amount field and is outside the property", "requests are decoded by the reference codec, never by the repo's"],
         false,
     )
